@@ -17,6 +17,9 @@ def main():
     if pid == "setup":
         pvlib.build_worker()
         sys.exit(0)
+    if pid == "selftest":
+        from checks import selftest
+        pvlib.main_wrap(selftest.run)
     mod = importlib.import_module("checks." + pid.lower())
     if "--replay" in args:
         path = args[args.index("--replay") + 1]
